@@ -263,7 +263,8 @@ def run_gated(case: dict[str, Any], launch, n: int, first_lines: list[str]) -> d
     use_proc = case["backend"] == "process"
     lazy = bool(case.get("lazy"))
     reraise = bool(case.get("reraise", True))
-    gate = Gate(n, use_proc)
+    ack = bool(case.get("ack_done"))
+    gate = Gate(n, use_proc, with_done=ack)
     cb = _Callback(lazy)
     obs: dict[str, Any] = {"hang": None, "notes": []}
     lines = list(first_lines) + ["S"] * n
@@ -326,6 +327,14 @@ def run_gated(case: dict[str, Any], launch, n: int, first_lines: list[str]) -> d
                     eff = mirror.apply(act)
                     gate.release[k].set()
                     lines.append(f"F {busy_wid.pop(k)}")
+                    if ack:
+                        # tasks writing into their inputs: the body of task k is over before the next one is released
+                        try:
+                            got_k = gate.done.get(timeout=EVENT_WAIT_S)
+                        except queue.Empty:
+                            raise Hang(f"the body of task {k} did not report its end") from None
+                        if got_k != k:
+                            raise Hang(f"the body of task {got_k} ended while task {k} was released", timeout=False)
                     if eff["start"]:
                         emit_take(*get_start())
                 else:
